@@ -402,6 +402,7 @@ func init() {
 	})
 	reg("unsafe.String", func(in *Interp, fr *frame, args []Value) Value { panic(in.unsupported("unsafe.String")) })
 	reg("strings.Clone", func(in *Interp, fr *frame, args []Value) Value { return args[0] })
+	reg("internal/stringslite.Clone", func(in *Interp, fr *frame, args []Value) Value { return args[0] })
 	reg("(*strings.Builder).String", func(in *Interp, fr *frame, args []Value) Value {
 		// Builder{addr *Builder, buf []byte}
 		s := (*args[0].(*Value)).(Struct)
